@@ -175,3 +175,76 @@ Section Sweep.
         * rewrite skip_sym. assumption.
   Qed.
 End Sweep.
+
+(* ---------- each pair is reported once ---------- *)
+Lemma nodup_app {A} (l1 l2 : list A) :
+  NoDup l1 -> NoDup l2 -> (forall x, In x l1 -> ~ In x l2) -> NoDup (l1 ++ l2).
+Proof.
+  induction l1 as [|x l1 IH]; intros H1 H2 Hd; simpl; [assumption|].
+  inversion H1 as [|? ? Hx H1']; subst. constructor.
+  - intros Hin. apply in_app_or in Hin. destruct Hin as [Hin|Hin]; [auto|]. apply (Hd x); [left; reflexivity|assumption].
+  - apply IH; auto. intros y Hy. apply Hd. right. assumption.
+Qed.
+
+Lemma minmax_inj i j j' : Z.min i j = Z.min i j' -> Z.max i j = Z.max i j' -> j = j'.
+Proof. lia. Qed.
+
+Section SweepNoDup.
+  Variable skip : Z -> Z -> bool.
+
+  Lemma sweep_inner_form i bi : forall rest a b,
+    In (a, b) (sweep_inner skip i bi rest) -> exists j, In j (map fst rest) /\ a = Z.min i j /\ b = Z.max i j.
+  Proof.
+    induction rest as [|[j bj] r IH]; intros a b H; simpl in H; [destruct H|].
+    destruct (b2minx bj >? b2maxx bi); [destruct H|].
+    apply in_app_or in H. destruct H as [H|H].
+    - destruct ((b2miny bi <=? b2maxy bj) && (b2maxy bi >=? b2miny bj) && negb (skip i j)); [|destruct H].
+      destruct H as [H|[]]. inversion H; subst. exists j. simpl. auto.
+    - destruct (IH a b H) as (k & Hk & Ha & Hb). exists k. simpl. auto.
+  Qed.
+
+  Lemma sweep_inner_nodup i bi : forall rest, NoDup (map fst rest) -> NoDup (sweep_inner skip i bi rest).
+  Proof.
+    induction rest as [|[j bj] r IH]; intros Hnd; simpl; [constructor|].
+    simpl in Hnd. inversion Hnd as [|? ? Hj Hnd']; subst.
+    destruct (b2minx bj >? b2maxx bi); [constructor|].
+    apply nodup_app; [|apply IH; assumption|].
+    - destruct ((b2miny bi <=? b2maxy bj) && (b2maxy bi >=? b2miny bj) && negb (skip i j)); repeat constructor. intros [].
+    - intros [a b] Hin Hin2.
+      destruct ((b2miny bi <=? b2maxy bj) && (b2maxy bi >=? b2miny bj) && negb (skip i j)); [|destruct Hin].
+      destruct Hin as [E|[]]. inversion E; subst.
+      destruct (sweep_inner_form i bi r _ _ Hin2) as (k & Hk & Ha & Hb).
+      assert (j = k) by (eapply minmax_inj; eassumption). subst. auto.
+  Qed.
+
+  Lemma sweep_outer_form : forall l a b,
+    In (a, b) (sweep_outer skip l) ->
+    exists k j, In k (map fst l) /\ In j (map fst l) /\ a = Z.min k j /\ b = Z.max k j.
+  Proof.
+    induction l as [|[i bi] r IH]; intros a b H; simpl in H; [destruct H|].
+    apply in_app_or in H. destruct H as [H|H].
+    - destruct (sweep_inner_form i bi r a b H) as (j & Hj & Ha & Hb). exists i, j. simpl. auto.
+    - destruct (IH a b H) as (k & j & Hk & Hj & Ha & Hb). exists k, j. simpl. auto.
+  Qed.
+
+  Lemma sweep_outer_nodup : forall l, NoDup (map fst l) -> NoDup (sweep_outer skip l).
+  Proof.
+    induction l as [|[i bi] r IH]; intros Hnd; simpl; [constructor|].
+    simpl in Hnd. inversion Hnd as [|? ? Hi Hnd']; subst.
+    apply nodup_app; [apply sweep_inner_nodup; assumption|apply IH; assumption|].
+    intros [a b] H1 H2.
+    destruct (sweep_inner_form i bi r a b H1) as (j & Hj & Ha & Hb).
+    destruct (sweep_outer_form r a b H2) as (k & j' & Hk & Hj' & Ha' & Hb').
+    assert (i = k \/ i = j') by lia.
+    destruct H; subst; auto.
+  Qed.
+
+  Theorem sweep_pairs_nodup (boxes : list box2) : NoDup (sweep_pairs skip boxes).
+  Proof.
+    unfold sweep_pairs.
+    eapply Permutation_NoDup; [apply PairSort.Permuted_sort|].
+    apply sweep_outer_nodup.
+    eapply Permutation_NoDup; [apply Permutation_map; apply EdgeSort.Permuted_sort|].
+    apply index_from_fst_nodup.
+  Qed.
+End SweepNoDup.
